@@ -7,10 +7,9 @@
    parse-then-print round trip is modelled by [debversion_roundtrip] (what
    `s.parse::<Version>().unwrap().to_string()` yields), validated by the rel-acc stream.
 
-   Relation::version is modelled as in the code AFTER the proposed fix
-   C10-epoch-and-space-in-version (it concatenates the IDENT and COLON tokens of the VERSION
-   node); before the fix it took the first IDENT token only, so that the version of
-   "a (>= 1:2.0)" -- had the parser accepted it -- would have been "1". *)
+   Relation::version is modelled as in the code since /repo 0eb8794 (it concatenates the IDENT
+   and COLON tokens of the VERSION node); before that fix it took the first IDENT token only, so
+   that the version of "a (>= 1:2.0)" -- had the parser accepted it -- would have been "1". *)
 From V.model Require Import Base RelLex RelParse.
 
 (* ---- crate::relations::VersionConstraint ---- *)
@@ -152,10 +151,23 @@ Definition relation_version (r : rtree) : res (option (vop * str)) :=
     end
   end.
 
-(* architectures(): the IDENT tokens of the ARCHITECTURES node (a '!' token is skipped) *)
+(* architectures() (as of /repo 541b0f5): a NOT token sets a flag, the next IDENT token is returned
+   with "!" in front when the flag is set and clears it; every other element is skipped and
+   leaves the flag alone ("[! a]" -> "!a", "[!!a]" -> "!a", "[!]" -> nothing).
+   Before 541b0f5 only the IDENT tokens were returned and the negation was lost
+   (RelParsePre.relation_architectures_pre). *)
+Fixpoint arch_fold (cs : list rtree) (negated : bool) : list str :=
+  match cs with
+  | [] => []
+  | Tok k s :: r =>
+      if rkind_eqb k NOT then arch_fold r true
+      else if rkind_eqb k IDENT then ((if negated then [33%N] else []) ++ s) :: arch_fold r false
+      else arch_fold r negated
+  | Node _ _ :: r => arch_fold r negated
+  end.
 Definition relation_architectures (r : rtree) : option (list str) :=
   match first_node_of_kind ARCHITECTURES (children r) with
-  | Some a => Some (tok_texts_of_kind IDENT (children a))
+  | Some a => Some (arch_fold (children a) false)
   | None => None
   end.
 
